@@ -224,6 +224,13 @@ def call_builtin(it, name, args, kwargs):
         if is_fp_term(v):
             return z3.And(z3.Not(z3.fpIsNaN(v)), z3.Not(z3.fpIsInf(v)))
         return True
+    if name == 'same_fp':
+        a, b = args
+        if is_fp_term(a) or is_fp_term(b):
+            return to_fp(a) == to_fp(b)
+        return scalar_cmp('==', a, b, fp)
+    if name == 'same_fp_bool':
+        return scalar_cmp('==', args[0], args[1], fp)
     if name == 'approx':
         return scalar_cmp('==', args[0], args[1], fp)
     if name == 'is_scalar':
